@@ -296,4 +296,360 @@ theorem readPunct_le_length (p : List Nat) : readPunct p ≤ p.length := by
     | nil => simp
     | cons c t => simp only [List.length_cons]; split <;> omega
 
+/-! ### dispatch of `lexStep` -/
+
+theorem lexStep_q (t : List Nat) (bol sp : Bool) : lexStep (34 :: t) bol sp = strTok [34] t bol sp := rfl
+theorem lexStep_u8q (t : List Nat) (bol sp : Bool) :
+    lexStep (117 :: 56 :: 34 :: t) bol sp = strTok [117, 56, 34] t bol sp := rfl
+theorem lexStep_uq (t : List Nat) (bol sp : Bool) : lexStep (117 :: 34 :: t) bol sp = strTok [117, 34] t bol sp := rfl
+theorem lexStep_Lq (t : List Nat) (bol sp : Bool) : lexStep (76 :: 34 :: t) bol sp = strTok [76, 34] t bol sp := rfl
+theorem lexStep_Uq (t : List Nat) (bol sp : Bool) : lexStep (85 :: 34 :: t) bol sp = strTok [85, 34] t bol sp := rfl
+theorem lexStep_a (t : List Nat) (bol sp : Bool) : lexStep (39 :: t) bol sp = chrTok [39] t bol sp := rfl
+theorem lexStep_ua (t : List Nat) (bol sp : Bool) : lexStep (117 :: 39 :: t) bol sp = chrTok [117, 39] t bol sp := rfl
+theorem lexStep_La (t : List Nat) (bol sp : Bool) : lexStep (76 :: 39 :: t) bol sp = chrTok [76, 39] t bol sp := rfl
+theorem lexStep_Ua (t : List Nat) (bol sp : Bool) : lexStep (85 :: 39 :: t) bol sp = chrTok [85, 39] t bol sp := rfl
+
+theorem strTok_append (pre a rest : List Nat) (bol sp : Bool) (T : Tok)
+    (h : strTok pre a bol sp = .tok T []) : strTok pre (a ++ rest) bol sp = .tok T rest := by
+  unfold strTok at h ⊢
+  cases hs : strEnd a with
+  | error e => rw [hs] at h; cases h
+  | ok r =>
+    rw [hs] at h
+    rw [strEnd_append a r.1 r.2 rest hs]
+    simp only at h ⊢
+    split at h
+    · rename_i he
+      rw [if_pos he]
+      injection h with h1 h2
+      rw [h1, h2]; rfl
+    · cases h
+
+theorem chrTok_append (pre a rest : List Nat) (bol sp : Bool) (T : Tok)
+    (h : chrTok pre a bol sp = .tok T []) : chrTok pre (a ++ rest) bol sp = .tok T rest := by
+  unfold chrTok at h ⊢
+  cases hs : charEnd a with
+  | error e => rw [hs] at h; cases h
+  | ok r =>
+    rw [hs] at h
+    rw [charEnd_append a r.1 r.2 rest hs]
+    simp only at h ⊢
+    injection h with h1 h2
+    rw [h1, h2]; rfl
+
+theorem pre_ne (x c : Nat) (q t : List Nat) (h : c ≠ x) : (x :: q).isPrefixOf (c :: t) = false := by
+  rw [List.isPrefixOf_cons_cons, beq_false_of_ne (Ne.symm h)]; rfl
+
+theorem pre2_true (x y c : Nat) (t : List Nat) (h : [x, y].isPrefixOf (c :: t) = true) :
+    c = x ∧ ∃ t', t = y :: t' := by
+  cases t with
+  | nil => simp [List.isPrefixOf] at h
+  | cons d t' =>
+    simp only [List.isPrefixOf_cons_cons, List.isPrefixOf_nil_left, Bool.and_true, Bool.and_eq_true,
+      beq_iff_eq] at h
+    exact ⟨h.1.symm, t', by rw [h.2]⟩
+
+theorem pre3_true (x y z c : Nat) (t : List Nat) (h : [x, y, z].isPrefixOf (c :: t) = true) :
+    c = x ∧ ∃ t', t = y :: z :: t' := by
+  match t, h with
+  | [], h => simp [List.isPrefixOf] at h
+  | [d], h => simp [List.isPrefixOf] at h
+  | d :: e :: t', h =>
+    simp only [List.isPrefixOf_cons_cons, List.isPrefixOf_nil_left, Bool.and_true, Bool.and_eq_true,
+      beq_iff_eq] at h
+    exact ⟨h.1.symm, t', by rw [h.2.1, h.2.2]⟩
+
+
+/-! ### character classes and the fusion predicate -/
+
+theorem ident1_cases (c : Nat) (h : isIdent1 c = true) :
+    c ≥ 128 ∨ c = 95 ∨ c = 36 ∨ (65 ≤ c ∧ c ≤ 90) ∨ (97 ≤ c ∧ c ≤ 122) := by
+  simp [isIdent1, inRange, ident1Ranges] at h
+  omega
+
+theorem ident2_cases (c : Nat) (h : isIdent2 c = true) :
+    c ≥ 128 ∨ c = 95 ∨ c = 36 ∨ (48 ≤ c ∧ c ≤ 57) ∨ (65 ≤ c ∧ c ≤ 90) ∨ (97 ≤ c ∧ c ≤ 122) := by
+  simp only [isIdent2, Bool.or_eq_true] at h
+  rcases h with h | h
+  · have := ident1_cases c h; omega
+  · simp [inRange, ident2Ranges] at h
+    omega
+
+theorem isIdent2_isWordChar (c : Nat) (h : isIdent2 c = true) : isWordChar c = true := by
+  have := ident2_cases c h
+  simp [isWordChar, isAlnum, isDigit, isUpper, isLower]
+  omega
+
+/-- `rest` may follow the spelling `c :: a` without changing how that spelling is scanned:
+    one condition per token class, in terms of the last character `l` of the spelling and the first of `rest` -/
+def noFuse (c : Nat) (a rest : List Nat) : Prop :=
+  (isNumStart (c :: a) = true → ppStop (lastOr c a) rest) ∧
+  (isIdent1 c = true → isWordChar (lastOr c a) = true →
+      headIs (fun r => isIdent2 r || r == 34 || r == 39) rest = false) ∧
+  (isNumStart (c :: a) = false → isIdent1 c = false → c ≠ 34 → c ≠ 39 →
+      punctStop (lastOr c a) rest ∧ ((lastOr c a == 46) && headIs isDigit rest) = false)
+
+theorem identTake_all (a : List Nat) (h : identTake a = (a, [])) : ∀ x ∈ a, isIdent2 x = true := by
+  induction a with
+  | nil => intro x hx; cases hx
+  | cons c t ih =>
+    rw [identTake.eq_2] at h
+    split at h
+    · rename_i hc
+      simp only [Prod.mk.injEq, List.cons.injEq, true_and] at h
+      intro x hx
+      rcases List.mem_cons.mp hx with rfl | hx
+      · exact hc
+      · exact ih (Prod.ext h.1 h.2) x hx
+    · simp at h
+
+theorem isNumStart_iff (c : Nat) (a : List Nat) :
+    isNumStart (c :: a) = (isDigit c || (c == 46 && headIs isDigit a)) := by
+  cases a with
+  | nil => simp [isNumStart, headIs]
+  | cons d t => simp [isNumStart, headIs]
+
+
+/-! ### the key step: a self-lexing spelling followed by text that does not fuse with it -/
+
+theorem pre2_append_false (x y c : Nat) (a rest : List Nat) (h : ¬ [x, y].isPrefixOf (c :: a) = true)
+    (hr : a = [] → c = x → headIs (fun r => y == r) rest = false) :
+    ¬ [x, y].isPrefixOf (c :: (a ++ rest)) = true := by
+  cases a with
+  | nil =>
+    by_cases hcx : c = x
+    · have := hr rfl hcx
+      cases rest with
+      | nil => simp [List.isPrefixOf]
+      | cons r t =>
+        simp only [headIs] at this
+        simp only [List.nil_append, List.isPrefixOf_cons_cons, this]; simp
+    · rw [List.nil_append, pre_ne x c _ _ hcx]; simp
+  | cons d t => exact h
+
+theorem pre3_append_false (x y z c : Nat) (a rest : List Nat) (h : ¬ [x, y, z].isPrefixOf (c :: a) = true)
+    (hr1 : headIs (fun r => y == r) rest = false) (hr2 : headIs (fun r => z == r) rest = false) :
+    ¬ [x, y, z].isPrefixOf (c :: (a ++ rest)) = true := by
+  match a, h with
+  | [], h =>
+    cases rest with
+    | nil => simp [List.isPrefixOf]
+    | cons r t =>
+      simp only [headIs] at hr1
+      simp only [List.nil_append, List.isPrefixOf_cons_cons, hr1]; simp
+  | [d], h =>
+    cases rest with
+    | nil => simp [List.isPrefixOf]
+    | cons r t =>
+      simp only [headIs] at hr2
+      simp only [List.cons_append, List.nil_append, List.isPrefixOf_cons_cons, hr2]; simp
+  | d :: e :: t, h => exact h
+
+theorem headIs_false_of (p q : Nat → Bool) (rest : List Nat) (h : headIs p rest = false)
+    (hpq : ∀ r, q r = true → p r = true) : headIs q rest = false := by
+  cases rest with
+  | nil => rfl
+  | cons r t =>
+    simp only [headIs] at h ⊢
+    cases hq : q r with
+    | false => rfl
+    | true => rw [hpq r hq] at h; cases h
+
+theorem lexStep_append (c : Nat) (a rest : List Nat) (k : Kind) (bol sp : Bool)
+    (h : lexStep (c :: a) bol sp = .tok ⟨k, c :: a, bol, sp⟩ [])
+    (hf : noFuse c a rest) :
+    lexStep (c :: a ++ rest) bol sp = .tok ⟨k, c :: a, bol, sp⟩ rest := by
+  rw [lexStep.eq_2] at h
+  by_cases hlc : [47, 47].isPrefixOf (c :: a) = true
+  · rw [if_pos hlc] at h
+    generalize skipLine (List.drop 1 a) = o at h
+    cases o <;> cases h
+  rw [if_neg hlc] at h
+  by_cases hbc : [47, 42].isPrefixOf (c :: a) = true
+  · rw [if_pos hbc] at h
+    generalize findCommentEnd (List.drop 1 a) = o at h
+    cases o <;> cases h
+  rw [if_neg hbc] at h
+  by_cases hnl : (c == 10) = true
+  · rw [if_pos hnl] at h; cases h
+  rw [if_neg hnl] at h
+  by_cases hsp : isSpace c = true
+  · rw [if_pos hsp] at h; cases h
+  rw [if_neg hsp] at h
+  by_cases hnum : (isDigit c || c == 46 && headIs isDigit a) = true
+  · -- pp-number
+    rw [if_pos hnum] at h
+    simp only at h
+    injection h with h1 h2
+    injection h1 with hk ht
+    have hpp : ppTake a = (a, []) := Prod.ext (List.cons.inj ht).2 h2
+    have hstop := hf.1 (by rw [isNumStart_iff]; exact hnum)
+    have hc : isDigit c = true ∨ c = 46 := by
+      simp only [Bool.or_eq_true, Bool.and_eq_true, beq_iff_eq] at hnum
+      rcases hnum with h | h
+      · exact Or.inl h
+      · exact Or.inr h.1
+    have hc47 : c ≠ 47 := by
+      rcases hc with h | h
+      · simp [isDigit] at h; omega
+      · omega
+    have hnum' : (isDigit c || c == 46 && headIs isDigit (a ++ rest)) = true := by
+      cases a with
+      | nil =>
+        -- `.` alone is not a pp-number, so `c` is a digit here
+        simp only [headIs, Bool.and_false, Bool.or_false] at hnum
+        simp [hnum]
+      | cons d t => exact hnum
+    rw [List.cons_append, lexStep.eq_2, pre_ne 47 c _ _ hc47, pre_ne 47 c _ _ hc47]
+    simp only [Bool.false_eq_true, if_false]
+    rw [if_neg hnl, if_neg hsp, if_pos hnum', ppTake_append a c rest hpp hstop, ← hk]
+  rw [if_neg hnum] at h
+  by_cases hq : (c == 34) = true
+  · rw [if_pos hq] at h
+    have := eq_of_beq hq; subst this
+    rw [List.cons_append, lexStep_q]
+    exact strTok_append _ _ _ _ _ _ h
+  rw [if_neg hq] at h
+  by_cases hp1 : [117, 56, 34].isPrefixOf (c :: a) = true
+  · rw [if_pos hp1] at h
+    obtain ⟨rfl, a', rfl⟩ := pre3_true _ _ _ _ _ hp1
+    exact strTok_append _ _ _ _ _ _ h
+  rw [if_neg hp1] at h
+  by_cases hp2 : [117, 34].isPrefixOf (c :: a) = true
+  · rw [if_pos hp2] at h
+    obtain ⟨rfl, a', rfl⟩ := pre2_true _ _ _ _ hp2
+    exact strTok_append _ _ _ _ _ _ h
+  rw [if_neg hp2] at h
+  by_cases hp3 : [76, 34].isPrefixOf (c :: a) = true
+  · rw [if_pos hp3] at h
+    obtain ⟨rfl, a', rfl⟩ := pre2_true _ _ _ _ hp3
+    exact strTok_append _ _ _ _ _ _ h
+  rw [if_neg hp3] at h
+  by_cases hp4 : [85, 34].isPrefixOf (c :: a) = true
+  · rw [if_pos hp4] at h
+    obtain ⟨rfl, a', rfl⟩ := pre2_true _ _ _ _ hp4
+    exact strTok_append _ _ _ _ _ _ h
+  rw [if_neg hp4] at h
+  by_cases hap : (c == 39) = true
+  · rw [if_pos hap] at h
+    have := eq_of_beq hap; subst this
+    rw [List.cons_append, lexStep_a]
+    exact chrTok_append _ _ _ _ _ _ h
+  rw [if_neg hap] at h
+  by_cases hp5 : [117, 39].isPrefixOf (c :: a) = true
+  · rw [if_pos hp5] at h
+    obtain ⟨rfl, a', rfl⟩ := pre2_true _ _ _ _ hp5
+    exact chrTok_append _ _ _ _ _ _ h
+  rw [if_neg hp5] at h
+  by_cases hp6 : [76, 39].isPrefixOf (c :: a) = true
+  · rw [if_pos hp6] at h
+    obtain ⟨rfl, a', rfl⟩ := pre2_true _ _ _ _ hp6
+    exact chrTok_append _ _ _ _ _ _ h
+  rw [if_neg hp6] at h
+  by_cases hp7 : [85, 39].isPrefixOf (c :: a) = true
+  · rw [if_pos hp7] at h
+    obtain ⟨rfl, a', rfl⟩ := pre2_true _ _ _ _ hp7
+    exact chrTok_append _ _ _ _ _ _ h
+  rw [if_neg hp7] at h
+  have hnum0 : isNumStart (c :: a) = false := by
+    rw [isNumStart_iff]; exact Bool.eq_false_iff.mpr hnum
+  have hc34 : c ≠ 34 := fun e => hq (by rw [e]; rfl)
+  have hc39 : c ≠ 39 := fun e => hap (by rw [e]; rfl)
+  by_cases hid : isIdent1 c = true
+  · -- identifier
+    rw [if_pos hid] at h
+    simp only at h
+    injection h with h1 h2
+    injection h1 with hk ht
+    have hit : identTake a = (a, []) := Prod.ext (List.cons.inj ht).2 h2
+    have hall := identTake_all a hit
+    have hc2 : isIdent2 c = true := by simp [isIdent2, hid]
+    have hlw : isWordChar (lastOr c a) = true := by
+      apply isIdent2_isWordChar
+      rcases List.mem_cons.mp (lastOr_mem c a) with e | e
+      · rw [e]; exact hc2
+      · exact hall _ e
+    have hstop := hf.2.1 hid hlw
+    have hc' := ident1_cases c hid
+    have hc47 : c ≠ 47 := by omega
+    have hr2 : headIs isIdent2 rest = false :=
+      headIs_false_of _ _ rest hstop (fun r hr => by simp [hr])
+    have hr34 : headIs (fun r => 34 == r) rest = false :=
+      headIs_false_of _ _ rest hstop (fun r hr => by have := eq_of_beq hr; subst this; rfl)
+    have hr39 : headIs (fun r => 39 == r) rest = false :=
+      headIs_false_of _ _ rest hstop (fun r hr => by have := eq_of_beq hr; subst this; rfl)
+    have hr56 : headIs (fun r => 56 == r) rest = false :=
+      headIs_false_of _ _ rest hr2 (fun r hr => by have := eq_of_beq hr; subst this; decide)
+    have hnum' : ¬ (isDigit c || c == 46 && headIs isDigit (a ++ rest)) = true := by
+      simp [isDigit]; omega
+    rw [List.cons_append, lexStep.eq_2, pre_ne 47 c _ _ hc47, pre_ne 47 c _ _ hc47]
+    simp only [Bool.false_eq_true, if_false]
+    rw [if_neg hnl, if_neg hsp, if_neg hnum', if_neg hq,
+      if_neg (pre3_append_false _ _ _ _ _ _ hp1 hr56 hr34),
+      if_neg (pre2_append_false _ _ _ _ _ hp2 (fun _ _ => hr34)),
+      if_neg (pre2_append_false _ _ _ _ _ hp3 (fun _ _ => hr34)),
+      if_neg (pre2_append_false _ _ _ _ _ hp4 (fun _ _ => hr34)),
+      if_neg hap,
+      if_neg (pre2_append_false _ _ _ _ _ hp5 (fun _ _ => hr39)),
+      if_neg (pre2_append_false _ _ _ _ _ hp6 (fun _ _ => hr39)),
+      if_neg (pre2_append_false _ _ _ _ _ hp7 (fun _ _ => hr39)),
+      if_pos hid, identTake_append a rest hit hr2, ← hk]
+  -- punctuator
+  rw [if_neg hid] at h
+  have hid0 : isIdent1 c = false := Bool.eq_false_iff.mpr hid
+  obtain ⟨hps, hdot⟩ := hf.2.2 hnum0 hid0 hc34 hc39
+  simp only at h
+  by_cases hn0 : (readPunct (c :: a) == 0) = true
+  · rw [if_pos hn0] at h; cases h
+  rw [if_neg hn0] at h
+  injection h with h1 h2
+  injection h1 with hk ht
+  have hlen : readPunct (c :: a) = (c :: a).length := by
+    have h1 := readPunct_le_length (c :: a)
+    have h2 : (c :: a).length ≤ readPunct (c :: a) := List.drop_eq_nil_iff.mp h2
+    omega
+  have hslash : ∀ y, y = 47 ∨ y = 42 → a = [] → c = 47 → headIs (fun r => y == r) rest = false := by
+    intro y hy ha hc
+    subst ha; subst hc
+    unfold punctStop at hps
+    simp only [lastOr] at hps
+    have h47 : ops.contains 47 = true := by decide
+    rw [h47, Bool.true_and] at hps
+    apply headIs_false_of _ _ rest hps
+    intro r hr
+    have := eq_of_beq hr; subst this
+    rcases hy with rfl | rfl <;> decide
+  have hnum' : ¬ (isDigit c || c == 46 && headIs isDigit (a ++ rest)) = true := by
+    cases a with
+    | nil =>
+      simp only [lastOr] at hdot
+      simp only [headIs, Bool.and_false, Bool.or_false] at hnum
+      rw [List.nil_append]
+      intro hh
+      simp only [Bool.or_eq_true, Bool.and_eq_true] at hh
+      rcases hh with hh | hh
+      · exact hnum hh
+      · rw [hh.1, hh.2] at hdot; cases hdot
+    | cons d t => exact hnum
+  have hc117 : c ≠ 117 := fun e => hid (by rw [e]; decide)
+  have hc76 : c ≠ 76 := fun e => hid (by rw [e]; decide)
+  have hc85 : c ≠ 85 := fun e => hid (by rw [e]; decide)
+  rw [List.cons_append, lexStep.eq_2,
+    if_neg (pre2_append_false _ _ _ _ _ hlc (hslash 47 (Or.inl rfl))),
+    if_neg (pre2_append_false _ _ _ _ _ hbc (hslash 42 (Or.inr rfl))),
+    if_neg hnl, if_neg hsp, if_neg hnum', if_neg hq,
+    pre_ne 117 c _ _ hc117, pre_ne 117 c _ _ hc117, pre_ne 76 c _ _ hc76, pre_ne 85 c _ _ hc85]
+  simp only [Bool.false_eq_true, if_false]
+  rw [if_neg hap, pre_ne 117 c _ _ hc117, pre_ne 76 c _ _ hc76, pre_ne 85 c _ _ hc85]
+  simp only [Bool.false_eq_true, if_false]
+  rw [if_neg hid]
+  have hrp : readPunct (c :: (a ++ rest)) = (c :: a).length := by
+    rw [← List.cons_append, readPunct_append c a rest hps, hlen]
+  show (if (readPunct (c :: (a ++ rest)) == 0) = true then _ else _) = _
+  rw [hrp, if_neg (by simp)]
+  rw [← List.cons_append, List.take_left', List.drop_left', ← hk]
+  · rfl
+  · rfl
+
+
 end ChibiVerif.Lex
